@@ -166,6 +166,18 @@ def candidates(cfg, model):
         add('rm_directory', iso_path=iso_dir, udf_path='/nope')
         if model.children(model.iso, iso_dir):
             add('rm_directory', iso_path=iso_dir)
+    # the directory addressed in every namespace at once: a fault when it is not empty in just one of them
+    for dk in ('D1', 'E1'):
+        d = DIRS[dk]
+        kw = {}
+        if d['iso'] in model.iso:
+            kw['iso_path'] = d['iso']
+        if model.jol is not None and d['joliet'] in model.jol:
+            kw['joliet_path'] = d['joliet']
+        if model.udf is not None and d['udf'] in model.udf:
+            kw['udf_path'] = d['udf']
+        if len(kw) > 1:
+            add('rm_directory', **kw)
     if jol_dir:
         add('rm_directory', joliet_path=jol_dir, udf_path='/nope')
     if jol_file:
